@@ -36,6 +36,7 @@ package limit_test
 //     to the closed port then stall for real seconds.)
 
 import (
+	"fmt"
 	"sort"
 	"sync"
 	"sync/atomic"
@@ -72,16 +73,80 @@ type c08Server struct {
 	evals map[string]int // EVAL commands executed by the server, per KEYS[1]
 }
 
-var (
-	c08SrvOnce sync.Once
-	c08Srv     *c08Server
+// Store kinds: how the *redis.Redis handed to the limiters is constructed. The
+// wrapper keeps ONE go-redis client per address and type (clientManager /
+// clusterManager keyed by address only), so kinds that need different client
+// options live on different miniredis instances.
+const (
+	c08StoreNode        = iota // redis.New(addr)                                 server 0
+	c08StoreCluster            // redis.New(addr, WithCluster())                  server 0
+	c08StoreNodePass           // redis.New(addr, WithPass(pw))                   server 1 (requirepass)
+	c08StoreClusterPass        // redis.New(addr, WithCluster(), WithPass(pw))    server 2 (requirepass)
+	c08StoreKinds
 )
+
+const c08Pass = "c08-secret"
+
+var c08StoreNames = [c08StoreKinds]string{"node", "cluster", "node+password", "cluster+password"}
+
+var (
+	c08SrvOnce [3]sync.Once
+	c08Srvs    [3]*c08Server
+)
+
+func c08StoreOpts(kind int) []redis.Option {
+	switch kind {
+	case c08StoreCluster:
+		return []redis.Option{redis.WithCluster()}
+	case c08StoreNodePass:
+		return []redis.Option{redis.WithPass(c08Pass)}
+	case c08StoreClusterPass:
+		return []redis.Option{redis.WithCluster(), redis.WithPass(c08Pass)}
+	}
+	return nil
+}
+
+// c08GetServerFor returns the server a store of this kind talks to (first call outside a bubble).
+func c08GetServerFor(kind int) *c08Server {
+	switch kind {
+	case c08StoreNodePass:
+		return c08StartServer(1, true, c08StoreNodePass)
+	case c08StoreClusterPass:
+		return c08StartServer(2, true, c08StoreClusterPass)
+	}
+	return c08StartServer(0, false, c08StoreNode, c08StoreCluster)
+}
+
+func c08GetServer() *c08Server { return c08GetServerFor(c08StoreNode) }
 
 // c08Epoch: every bubble starts here; also the origin of the caller clock
 // (the caller-supplied `now` is data of the case: epoch + milliseconds).
 var c08Epoch = time.Unix(946684800, 0)
 
+// c08CommandTable: COMMAND reply with the commands the limiters and the harness use.
+var c08CommandTable = func() string {
+	t := "*5\r\n"
+	for _, e := range []struct {
+		name  string
+		arity int
+		flag  string
+		first int
+	}{{"ping", -1, "fast", 0}, {"eval", -3, "noscript", 0}, {"get", 2, "readonly", 1}, {"set", -3, "write", 1}, {"hget", 3, "readonly", 1}} {
+		t += fmt.Sprintf("*6\r\n$%d\r\n%s\r\n:%d\r\n*1\r\n+%s\r\n:%d\r\n:%d\r\n:%d\r\n", len(e.name), e.name, e.arity, e.flag, e.first, e.first, e.first)
+	}
+	return t
+}()
+
 func (s *c08Server) hook(c *server.Peer, cmd string, args ...string) bool {
+	if cmd == "COMMAND" {
+		// go-redis' cluster client asks for the command table before its first
+		// command and caches it; it cannot parse miniredis' canned table, would ask
+		// again before EVERY command and - inside a bubble - deadlock (it sleeps
+		// between retries holding the cache's mutex). A small well-formed table is
+		// cached by the warm-up ping (EVAL is routed by KEYS[1] in any case).
+		c.WriteRaw(c08CommandTable)
+		return true
+	}
 	switch s.mode.Load() {
 	case c08Loading:
 		c.WriteError("LOADING Redis is loading the dataset in memory")
@@ -117,13 +182,18 @@ func (s *c08Server) hook(c *server.Peer, cmd string, args ...string) bool {
 	return false
 }
 
-// c08GetServer must first be called OUTSIDE a bubble (it is: from the Test
-// functions and from the interpreters before kit.Bubble).
-func c08GetServer() *c08Server {
-	c08SrvOnce.Do(func() {
+// c08StartServer: must first be called OUTSIDE a bubble (it is: from the Test
+// functions and from the interpreters before kit.Bubble). The warm-up pings
+// create the process-wide go-redis clients (pools, reapers, the cluster
+// client's per-node client) outside the bubbles.
+func c08StartServer(idx int, auth bool, kinds ...int) *c08Server {
+	c08SrvOnce[idx].Do(func() {
 		mr := miniredis.NewMiniRedis()
 		if err := mr.Start(); err != nil {
 			panic("c08: miniredis: " + err.Error())
+		}
+		if auth {
+			mr.RequireAuth(c08Pass)
 		}
 		s := &c08Server{mr: mr, addr: mr.Addr(), req: make(chan func()), ack: make(chan struct{}), evals: map[string]int{}}
 		mr.Server().SetPreHook(s.hook)
@@ -133,13 +203,14 @@ func c08GetServer() *c08Server {
 				s.ack <- struct{}{}
 			}
 		}()
-		// warm-up: creates the process-wide go-redis client (pool + reaper) outside bubbles
-		if !redis.New(s.addr).Ping() {
-			panic("c08: warm-up ping failed")
+		for _, k := range kinds {
+			if !redis.New(s.addr, c08StoreOpts(k)...).Ping() {
+				panic("c08: warm-up ping failed for store kind " + c08StoreNames[k])
+			}
 		}
-		c08Srv = s
+		c08Srvs[idx] = s
 	})
-	return c08Srv
+	return c08Srvs[idx]
 }
 
 // do runs f on the helper goroutine (outside any bubble) and waits for it.
